@@ -30,7 +30,7 @@ PAIRS = {
     "mt": ("MTReceivers", None, None, None, "single"),
     "dc": ("PotentialElectrode", "CurrentElectrode", "current_electrodes", "potential_electrodes", "dc"),
 }
-KINDS = {"link": 6, "edit": 12, "components": 2, "copy": 6, "reopen": 4, "reopen_same": 1, "gc": 3, "drop": 2, "observe": 3}
+KINDS = {"link": 6, "bad_link": 3, "edit": 12, "components": 2, "copy": 6, "reopen": 4, "reopen_same": 1, "gc": 3, "drop": 2, "observe": 3}
 N_VERT = 6
 
 
@@ -40,7 +40,7 @@ class SurveyScenario(BaseScenario):
     def __init__(self, prop="C20"):
         self.prop = prop
         self.expected_probes = ["link_from_receivers", "link_from_partner", "edit_from_receivers", "edit_from_partner", "copy_plain", "copy_masked", "copy_cross",
-                                "copy_of_copy", "copy_from_partner_side", "copy_masked_large_loop", "link_at_creation", "reopen", "partner_resolved_after_reopen"] + [f"pair:{p}" for p in PAIRS]
+                                "copy_of_copy", "copy_from_partner_side", "copy_masked_large_loop", "link_at_creation", "bad_link_refused", "reopen", "partner_resolved_after_reopen"] + [f"pair:{p}" for p in PAIRS]
         self.rule = ("one evaluation = one seeded history on one survey class pair (airborne / moving-loop / large-loop TEM and FEM, tipper, MT, direct current): link "
                      "from either side, edits of shared parameters (channels, unit, input type, loop radius, offsets and angles, waveform, timing mark, component data) "
                      "through either side, copies (plain, masked, cross-workspace, copies of copies, from either side), re-open, GC points, dropped references. After "
@@ -355,6 +355,35 @@ class SurveyScenario(BaseScenario):
         del rx, px
         pr["linked"] = True
         return "ok"
+
+    def do_bad_link(self, sim, wss, st, cfg, r, path):
+        """A link that must be refused (wrong class, or -- tipper -- a vertex count that fits neither 1 nor the receivers'):
+        refused without side effects, the pair stays as it was."""
+        from geoh5py import objects
+
+        rx_cls, px_cls, rx_attr, px_attr, family = PAIRS[cfg["pair"]]
+        if family in ("single", "dc"):
+            return "skipped"
+        pr = self._pick(st, r)
+        if pr["rx"] is None:
+            return "skipped"
+        ws = wss[pr["ws"]]
+        rx = self.get(ws, pr["rx"])
+        which = r.choice(["wrong_class", "wrong_count"]) if family == "tipper" else "wrong_class"
+        if which == "wrong_class":
+            decoy = objects.Points.create(ws, vertices=np.zeros((2, 3)), name=f"decoy{len(st['pairs'])}")
+        else:
+            decoy = getattr(objects, px_cls).create(ws, vertices=np.zeros((rx.n_vertices + 2, 3)) + 5.0, name=f"decoy{len(st["pairs"])}")
+        try:
+            setattr(rx, rx_attr, decoy)
+            raised = None
+        except Exception as err:  # pylint: disable=broad-except
+            raised = type(err).__name__
+        del rx, decoy
+        if raised is None:
+            raise Violation("C20", "bad_link_accepted", f"linking the receivers to a {which.replace('_', ' ')} partner was accepted", {"pair": cfg["pair"], "which": which})
+        sim.probe("bad_link_refused")
+        return "refused:" + raised
 
     def do_edit(self, sim, wss, st, cfg, r, path):
         family = PAIRS[cfg["pair"]][4]
